@@ -35,6 +35,8 @@ def prefixes():
     return out
 
 
+# suites whose sessions are also driven through the TracksController
+CTL_SUITES = ("struct4", "seg13")
 # alphabet -> (prefix, suite)
 ALPHA_CFG = {"HC_D": ("PX_D", "struct4"), "HC_E": ("PX_E", "struct4")}
 
@@ -57,13 +59,13 @@ def design(name, depth, scratch, suite, log):
             "wall_s": round(dt, 1)}
 
 
-def sessions(suite, spec, scratch, tag):
+def sessions(suite, spec, scratch, tag, script="sessions.py"):
     cfgp = os.path.join(scratch, f"hcfg_{tag}.json")
     json.dump(suite["cfg"], open(cfgp, "w"))
     sp = os.path.join(scratch, f"spec_{tag}.json")
     json.dump(spec, open(sp, "w"))
     outdir = os.path.join(scratch, f"ses_{tag}")
-    p = subprocess.run([cf.PY, os.path.join(ROOT, "harness", "sessions.py"), cfgp, sp, outdir, str(cf.NCPU)],
+    p = subprocess.run([cf.PY, os.path.join(ROOT, "harness", script), cfgp, sp, outdir, str(cf.NCPU)],
                        stdout=subprocess.PIPE, stderr=subprocess.PIPE, text=True, env=cf.harness_env())
     if p.returncode != 0:
         raise MachineryError("session harness failed:\n" + p.stderr[-3000:])
@@ -71,7 +73,7 @@ def sessions(suite, spec, scratch, tag):
     return sorted(glob.glob(os.path.join(outdir, "*.ndjson"))), info
 
 
-def trace(suite, shards, scratch, log, props=("C02",)):
+def trace(suite, shards, scratch, log, props=("C02",), module="TraceHist.tla"):
     consts = dict(suite["tla"])
     consts.update({"Fixes": tlc.tla_set(cf.ALL_FIXES), "Check": tlc.tla_set(sorted(props) + ["REF"])})
     cfgp = os.path.join(scratch, f"trace_{suite['cfg']['name']}.cfg")
@@ -80,11 +82,11 @@ def trace(suite, shards, scratch, log, props=("C02",)):
     def one(sh):
         if os.path.getsize(sh) == 0:
             return sh, ""
-        out, dt, rc = tlc.run_tlc("TraceHist.tla", cfgp, scratch, workers=1, env={"TRACE_FILE": sh},
+        out, dt, rc = tlc.run_tlc(module, cfgp, scratch, workers=1, env={"TRACE_FILE": sh},
                                   tag=os.path.basename(os.path.dirname(sh)) + os.path.basename(sh))
         if not tlc.completed_ok(out):
             log(out[-3000:])
-            raise MachineryError(f"TraceHist failed on {sh}")
+            raise MachineryError(f"{module} failed on {sh}")
         return sh, out
 
     res = {"fails": [], "drift": [], "sessions": 0, "steps": 0, "undoredo": 0}
@@ -122,9 +124,18 @@ def session_phase(prop, tier, seed, scratch, log, suites=("struct4", "struct3"))
             plans.append((f"{sname}_{name}", cf.SUITES[sname],
                           {"mode": "exhaustive", "alphabet": alph[name], "length": 4 if tier == "quick" else 5,
                            "prefix": pre.get(pname, [])}))
+    for sname in suites:
+        if sname in CTL_SUITES and prop != "C20":
+            suite = cf.SUITES[sname]
+            plans.append((f"ctl_{sname}", suite, {"mode": "ctl", "count": nrand // 2, "length": 30, "seed": seed + 5,
+                                                  "kinds": suite["kinds"]}))
     for sname, suite, spec in plans:
-        shards, info = sessions(suite, spec, scratch, f"inv_{sname}")
-        res = trace(suite, shards, scratch, log, props=(prop,))
+        if spec["mode"] == "ctl":
+            shards, info = sessions(suite, spec, scratch, f"inv_{sname}", script="ctl.py")
+            res = trace(suite, shards, scratch, log, props=(prop,), module="TraceCtl.tla")
+        else:
+            shards, info = sessions(suite, spec, scratch, f"inv_{sname}")
+            res = trace(suite, shards, scratch, log, props=(prop,))
         if res["sessions"] != info["sessions"]:
             raise MachineryError(f"TLC saw {res['sessions']} sessions, harness wrote {info['sessions']}")
         info.update({"suite": sname, "fails": len(res["fails"]), "drift": len(res["drift"]), "steps": res["steps"]})
@@ -161,10 +172,24 @@ def run(prop, tier, seed, replay_path=None):
                            "p_undo": 0.28, "p_redo": 0.2}, "random4"))
         plans.append((s3, {"mode": "random", "count": nrand, "length": 60, "seed": seed + 1, "kinds": [1, 2, 3, 4, 5, 6],
                            "p_undo": 0.3, "p_redo": 0.25}, "random3"))
+        # the same calls through the deprecated TracksController (spec/Ctl.tla): a batch is one timeline step per
+        # refresh it emits; "ctlp" sessions end with an update_node_attrs batch that fails half-way (refinement only)
+        nctl = 160 if tier == "quick" else 3000
+        for k, sname in enumerate(CTL_SUITES):
+            cs = cf.SUITES[sname]
+            plans.append((cs, {"mode": "ctl", "count": nctl, "length": 30, "seed": seed + 31 * k, "kinds": cs["kinds"]},
+                          f"ctl_{sname}"))
+        plans.append((s4, {"mode": "ctlp", "count": nctl // 2, "length": 12, "seed": seed + 7, "kinds": s4["kinds"],
+                           "partial": True}, "ctlp_struct4"))
         samples = []
         for suite, spec, tag in plans:
-            shards, info = sessions(suite, spec, scratch, tag)
-            res = trace(suite, shards, scratch, log)
+            if spec["mode"] in ("ctl", "ctlp"):
+                shards, info = sessions(suite, spec, scratch, tag, script="ctl.py")
+                res = trace(suite, shards, scratch, log, props=("C02",) if spec["mode"] == "ctl" else (),
+                            module="TraceCtl.tla")
+            else:
+                shards, info = sessions(suite, spec, scratch, tag)
+                res = trace(suite, shards, scratch, log)
             if res["sessions"] != info["sessions"]:
                 raise MachineryError(f"TLC saw {res['sessions']} sessions, harness wrote {info['sessions']}")
             info.update({"plan": tag, "suite": suite["cfg"]["name"], "mode": spec["mode"], "length": spec["length"],
